@@ -307,7 +307,7 @@ let parse_plant_path (p : string) : path =
   | _ -> failwith ("bad plant path " ^ p)
 
 (* ---------- running one case ---------- *)
-type mode = Plain | CrashAll | Fault of int | FaultAll | DamageAll
+type mode = Plain | CrashAll | Fault of int | FaultAll | DamageAll | PowerLossAll
 
 let obs_model (out : Buffer.t) (hd : handle option) (w : world) (since : int ref) =
   (match hd with
@@ -465,6 +465,29 @@ let run_case (name : string) (lines : string list) (mode : mode) =
      let (w, _) = run_lines scratch lines fs0 None in
      Buffer.add_string out (Printf.sprintf "CASE %s\n" name);
      damage_all out (case_cfg lines) w.wfs
+   | PowerLossAll ->
+     let scratch = Buffer.create 4096 in
+     let (w, _) = run_lines scratch lines fs0 None in
+     let tr = List.rev w.wtrace in
+     let total = List.length tr in
+     Buffer.add_string out (Printf.sprintf "CASE %s crash-total=%d\n" name total);
+     for k = 0 to total do
+       let img = crash_fs (nat_of_int k) tr fs0 in
+       let uns = List.sort (fun a b -> compare (path_str a) (path_str b))
+           (List.filter_map (fun (p, f) -> if int_of_nat f.fsynced < int_of_nat (length f.fdata) then Some p else None) img.files) in
+       let m = List.length uns in
+       if m > 0 then begin
+         let masks = if m <= 3 then List.init ((1 lsl m) - 1) (fun i -> i + 1)
+           else List.init m (fun i -> 1 lsl i) @ [(1 lsl m) - 1] in
+         List.iter (fun mask ->
+           let victims = List.filteri (fun i _ -> mask land (1 lsl i) <> 0) uns in
+           let lost = lose (fun p -> List.exists (fun q -> path_eqb p q) victims) img in
+           Buffer.add_string out (Printf.sprintf "CRASH %d\n" k);
+           Buffer.add_string out (Printf.sprintf "A victims=%s\n" (String.concat "," (List.map path_str victims)));
+           dump_fs out "C " lost false;
+           recovery out (case_cfg lines) (case_keys lines) lost) masks
+       end
+     done
    | FaultAll ->
      let scratch = Buffer.create 4096 in
      let (w, _) = run_lines scratch lines fs0 None in
@@ -731,6 +754,7 @@ let () =
     | "--fault" :: k :: r -> mode := Fault (int_of_string k); go r
     | "--fault-all" :: r -> mode := FaultAll; go r
     | "--damage-all" :: r -> mode := DamageAll; go r
+    | "--powerloss-all" :: r -> mode := PowerLossAll; go r
     | f :: r -> files := f :: !files; go r
     | [] -> () in
   go args;
